@@ -110,12 +110,19 @@ def mkCand (rs : List (List (Nat × Nat))) (id : Nat) : Cand :=
   let m := (findMeth ms id).getD default
   { id := id, prio := m.prio, spec := rs.map (fun r => lvlIn r id), tb := m.tb }
 
+/-- a call without any argument (`candidates is None` after the loop of `mro`): every method that requires no
+    argument competes, on priority alone (since the `fix:` for finding D9; before it the table kept one
+    `empty` entry, the zero-parameter method registered last) -/
+def zeroArgIds : List Nat :=
+  (ms.filter (fun m => m.reqPos == 0 && m.reqNames.isEmpty)).map (·.id)
+
 /-- the candidate list before sorting, in the iteration order of the candidate set -/
 def candidates (k : Key) : Option (List Cand) :=
   match slotResults cfg ms k with
   | none => none
   | some rs =>
-    let ids := (candIds rs).mergeSort (fun a b => cfg.hRank a ≤ cfg.hRank b)
+    let ids0 := if k.isEmpty then zeroArgIds ms else candIds rs
+    let ids := ids0.mergeSort (fun a b => cfg.hRank a ≤ cfg.hRank b)
     some (ids.map (mkCand ms rs))
 
 /-- `MultiTypeMap.mro` -/
@@ -158,13 +165,11 @@ structure MMap where
   meths : List Meth := []
   st : St Key Entry (List Nat) := St.empty
   tcache : List (Slot × Ty) := []
-  empty : Option Nat := none
 
 def MMap.register (mm : MMap) (m : Meth) : MMap :=
   { meths := mm.meths ++ [m],
     st := cleared mm.st,
-    tcache := mm.tcache.filter (fun e => !(m.params.any (fun p => p.1 == e.1))),
-    empty := if m.params.isEmpty then some m.id else mm.empty }
+    tcache := mm.tcache.filter (fun e => !(m.params.any (fun p => p.1 == e.1))) }
 
 def touchT (cfg : Cfg) (ms : List Meth) (tc : List (Slot × Ty)) (k : Key) : List (Slot × Ty) :=
   k.foldl (fun tc e =>
@@ -175,19 +180,13 @@ def touchT (cfg : Cfg) (ms : List Meth) (tc : List (Slot × Ty)) (k : Key) : Lis
 /-- does `table[ck]` run `resolve` (hence `mro`, `sort_types`, `typeorder`, `subclasscheck` and with them the
     user's class predicates and hooks)? -/
 def MMap.resolvesAt (cfg : Cfg) (mm : MMap) (ck : CKey Key) : Bool :=
-  match ck with
-  | (_, []) => false
-  | (c, k) => resolves (plan cfg mm.meths) mm.st (c, k)
+  resolves (plan cfg mm.meths) mm.st ck
 
 /-- `table[ck]` -/
 def MMap.lookup (cfg : Cfg) (mm : MMap) (ck : CKey Key) : MMap × Res Entry (List Nat) :=
   match ck with
-  | (none, []) =>
-    (mm, match mm.empty with | some id => .ok (.meth id) | none => .noMethod)
-  | (some _, []) =>
-    -- `call_next()` without arguments: nothing is below the entry of the empty call (`fix:` for finding D24)
-    (mm, .noMethod)
   | (c, k) =>
+    -- (the key of a call without arguments, `[]`, goes the same way since the `fix:` for finding D9)
     let resolves := (mm.st.cache (c, k)).isNone && (mm.st.cache (none, k)).isNone
     let (st', r) := Ovld.lookup (plan cfg mm.meths) mm.st (c, k)
     ({ mm with st := st', tcache := if resolves then touchT cfg mm.meths mm.tcache k else mm.tcache }, r)
@@ -195,7 +194,6 @@ def MMap.lookup (cfg : Cfg) (mm : MMap) (ck : CKey Key) : MMap × Res Entry (Lis
 /-- `table[ck]` interrupted after `n` writes of its resolution -/
 def MMap.lookupCut (cfg : Cfg) (mm : MMap) (ck : CKey Key) (n : Nat) : MMap :=
   match ck with
-  | (_, []) => mm
   | (c, k) =>
     let resolves := (mm.st.cache (c, k)).isNone && (mm.st.cache (none, k)).isNone
     { mm with st := Ovld.lookupCut (plan cfg mm.meths) mm.st (c, k) n,
